@@ -30,9 +30,11 @@ def judge(ck, prop, trace, what, spec="MeshTrace"):
         if key in seen:
             continue
         seen.add(key)
-        small = {k: ev[k] for k in ev if k not in ("s", "t", "r")}
+        small = {k: ev[k] for k in ev if k not in ("s", "t", "r", "b")}
         for side in ("s", "t"):
-            if side in ev:
+            if side in ev and isinstance(ev[side], list):
+                small[side + "_summary"] = [{k: sh[k] for k in ("kind", "name", "nv", "nt", "bones") if k in sh} for sh in ev[side]][:4]
+            elif side in ev:
                 small[side + "_summary"] = {k: ev[side][k] for k in ("kind", "nv", "nt", "labelled") if k in ev[side]}
                 if ev[side].get("nv", 99) <= 6:
                     small[side + "_summary"].update({k: ev[side][k] for k in ("labels", "tris", "triParts", "segTriParts", "segs") if k in ev[side]})
